@@ -284,6 +284,7 @@ func init() {
 		if !c.Preload(c.Configs()...) {
 			return
 		}
+		portableWidthRule(c, c.Configs()[0])
 		expFoundations(c) // scalar inversion raises to L-2 in Montgomery form (E-EXP)
 		dts := run.Rule("DT-S", "ScMinimalVartime returns exactly 'little-endian value < L' on every consistent abstract input, false on any other length", 5000)
 		red := run.Rule("REDUCED", "every scalar operation documented to return a reduced value packs a value that is reduced by construction (Montgomery reduction, or sums/differences of reduced values and constants below L)", 12)
